@@ -39,6 +39,9 @@ type feResult struct {
 	noRef   bool
 	superset bool
 	self     bool
+	cross    bool
+	clsEq, clsLt map[int]bool
+	clsIdentity  bool
 }
 
 func (r feResult) label() string {
@@ -54,6 +57,9 @@ func (r feResult) label() string {
 	}
 	if r.self {
 		n += "[self]"
+	}
+	if r.cross {
+		n += "[cross]"
 	}
 	return n
 }
@@ -186,6 +192,96 @@ func exploreSelfOne(prog *Program, spec feSpec, multi bool, workers int) feResul
 	return res
 }
 
+// exploreCrossOne: sen.Parser against sen.Tokenizer (crossprod.go).
+func exploreCrossOne(prog *Program, a, b feSpec, multi bool) feResult {
+	res := feResult{spec: a, multi: multi, name: a.rel + "." + a.typ + "~" + b.rel + "." + b.typ, cross: true}
+	ma, err := ExtractMachine(prog, a.rel, a.typ, a.roots)
+	if err != nil {
+		res.err = err
+		return res
+	}
+	mb, err := ExtractMachine(prog, b.rel, b.typ, b.roots)
+	if err != nil {
+		res.err = err
+		return res
+	}
+	for _, m := range []*Machine{ma, mb} {
+		m.in.buildKinds = true
+		m.in.precisePrev = true // "can still accept" must know what a closed container returns to
+		m.in.prevDepth = 2
+		m.in.noScratch = true
+		m.in.selfEvents = true // records the branch taken at conditions over untracked data
+	}
+	sa := startStates(ma, a, multi, &res)
+	if res.err != nil {
+		return res
+	}
+	sb := startStates(mb, b, multi, &res)
+	if res.err != nil {
+		return res
+	}
+	// one byte-class partition for both machines
+	for round := 0; round < 6; round++ {
+		cls := newByteClasses(append(append([]string{}, ma.tableVals...), mb.tableVals...), multi)
+		cls.seeding = true
+		for _, sbs := range [][]int{ma.seedBytes, mb.seedBytes} {
+			for _, x := range sbs {
+				cls.request("eq", x, "")
+			}
+		}
+		if round > 0 {
+			// carry over what the previous round asked for
+			for v := range res.clsEq {
+				cls.request("eq", v, "")
+			}
+			for v := range res.clsLt {
+				cls.request("lt", v, "")
+			}
+			if res.clsIdentity {
+				cls.request("identity", 0, "carried over")
+			}
+		}
+		cls.seeding = false
+		cls.rebuild()
+		ma.in.cls, mb.in.cls = cls, cls
+		delete(obCache, ma)
+		delete(obCache, mb)
+		ma.belowC, ma.belowKeys, ma.pendingBelow = map[string][]absStack{}, map[string]bool{}, nil
+		mb.belowC, mb.belowKeys, mb.pendingBelow = map[string][]absStack{}, map[string]bool{}, nil
+		if hs := ma.enterWork(sa[0]); len(hs) > 0 {
+			ma.computeLiveness(hs[0])
+		}
+		if hs := mb.enterWork(sb[0]); len(hs) > 0 {
+			mb.computeLiveness(hs[0])
+		}
+		res.stats = ExploreStats{}
+		res.dis, res.undec = ExploreCross(ma, mb, sa, sb, &res.stats)
+		if !cls.dirty {
+			break
+		}
+		if res.clsEq == nil {
+			res.clsEq, res.clsLt = map[int]bool{}, map[int]bool{}
+		}
+		for v := range cls.distinct {
+			if cls.distinct[v] {
+				res.clsEq[v] = true
+			}
+		}
+		for v := range cls.thresholds {
+			if cls.thresholds[v] {
+				res.clsLt[v] = true
+			}
+		}
+		res.clsIdentity = res.clsIdentity || cls.identity
+	}
+	res.undec = append(res.undec, ma.in.undecided...)
+	res.undec = append(res.undec, mb.in.undecided...)
+	res.classes = len(ma.in.cls.list)
+	delete(obCache, ma)
+	delete(obCache, mb)
+	return res
+}
+
 func exploreSelf(prog *Program, specs []feSpec, modes []bool) []feResult {
 	type job struct {
 		spec  feSpec
@@ -257,6 +353,7 @@ func exploreFrontEnds(prog *Program, specs []feSpec, modes []bool, noRef bool, s
 
 // kinds of disagreement decided by each property.
 var (
+	kindsCross    = map[string]bool{"cross-verdict": true, "cross-eof": true, "cross-stack": true}
 	kindsChunk    = map[string]bool{"chunk-verdict": true, "chunk-eof": true, "chunk-stack": true, "chunk-events": true}
 	kindsSuperset = map[string]bool{"rejects-live": true, "eof-reject": true, "stack-desync": true, "panic": true, "no-progress": true, "early-return": true}
 	kindsAccept   = map[string]bool{"accepts-dead": true, "rejects-live": true, "eof-accept": true, "eof-reject": true, "early-return": true, "stack-desync": true}
@@ -415,6 +512,7 @@ func ruleC03(prog *Program, rep *Report) {
 		"A-chunk: a buffer refill is allowed between any two bytes of the exploration and every fast path guarded by the remaining buffer length is explored both taken and not taken, so agreement holds for every chunking",
 		"A-subset: sen.Parser and sen.Tokenizer, explored in product with the RFC 8259 reference but compared as a superset: wherever the reference continues the SEN front-end continues (no rejects-live), wherever the reference accepts at end of input the SEN front-end does (no eof-reject), containers open and close in lock-step while the input is JSON (no stack-desync), and no JSON prefix drives them into a panic or an endless re-dispatch; bytes only SEN accepts are not followed. For sen.Parser the kind of the top of the build stack (pending key / object being filled / other) is tracked, because its helpers choose key-or-value from it",
 		"A-senchunk: sen.Parser and sen.Tokenizer each explored in product with themselves: one side under an arbitrary chunking (fast paths look ahead as far as the buffer allows, a refill may happen between any two steps), the other under one-byte chunking (no fast path is ever taken), reading the same bytes. The two sides must give the same verdict for every byte and at end of input, push and pop containers in lock-step with equal frames, and produce the same sequence of observable operations (handler calls; for the parser: build-stack pushes/pops/truncations, key pushes, result store / callback call / channel send), compared with a bounded lag because a fast path reports a token when it sees the delimiter and the slow path when the delimiter is dispatched. Conditions over untracked data fork on both sides and are paired by source position; a disagreement is reported only when no pairing agrees",
+		"A-sencross: sen.Parser against sen.Tokenizer, both under one-byte chunking (their chunk independence is A-senchunk), one shared byte-class partition: whenever one reports an error at a byte (or at end of input) the other reports one too or is in a state from which no continuation is accepted, and containers are pushed and popped on the same bytes. 'No continuation is accepted' is decided on each machine's own state graph by backward reachability from the accepting states, using only pops whose uncovered frame the abstraction determines (frames remember the two frames they cover), so it under-approximates: a front-end that notices a hopeless input later than the other (a number in key position) is not reported, a real divergence nested deeper than two containers may be missed. Bytes for which either side lacks an arm (known findings of A-noarm) are outside the compared language",
 		"A-noarm: in sen.Parser and sen.Tokenizer explored alone, every action code a reachable (mode, byte) cell holds has a case in the dispatch switch (a missing case silently skips the byte in one sibling only)")
 	rep.Explain(engineAExplanation)
 	rep.Explain("C03 decides agreement of the strict-JSON front-ends as acceptors and event sources under every chunking, in single- and multi-document mode (the multi-document reference is: a sequence of JSON values optionally separated by whitespace; a top-level number ends at whitespace or end of input), and the structural part of sen.Parser/sen.Tokenizer agreement (no silently skipped action code). Not covered: equality of the value trees (values are Top in the abstract domain), alt.Builder reconstruction, Simplify, and equality of the SEN and JSON trees for a JSON text (A-subset decides acceptance and container structure only).")
@@ -432,9 +530,14 @@ func ruleC03(prog *Program, rep *Report) {
 	applyParseResults(rep, ssup, kindsSuperset, "A-subset", 12)
 	sself := exploreSelf(prog, senFrontEnds, senModes)
 	applyParseResults(rep, sself, kindsChunk, "A-senchunk", 12)
+	var scross []feResult
+	for _, mo := range senModes {
+		scross = append(scross, exploreCrossOne(prog, senFrontEnds[0], senFrontEnds[1], mo))
+	}
+	applyParseResults(rep, scross, kindsCross, "A-sencross", 12)
 	ruleSENFollow(prog, rep)
 	ruleReaderLoops(prog, rep)
-	ruleEntryParity(prog, rep) // the []byte and the reader entry must start from the same state
+	ruleEntryParity(prog, rep, "oj.Parser", "oj.Validator", "oj.Tokenizer", "gen.Parser", "sen.Parser", "sen.Tokenizer") // the []byte and the reader entry must start from the same state
 	if rep.Tier == "thorough" {
 		mutationSweep(prog, rep, union(kindsAccept, kindsEvents, kindsPanic), sweepSize())
 	}
